@@ -57,6 +57,10 @@ class OMPTaskTrans(ParallelLoopTrans):
     In the future it may be possible to do this through an _update_node
     implementation.
     '''
+    # This directive always parallelises the loop: the 'sequential' option
+    # (which switches off the dependence analysis) is not supported.
+    _supports_sequential = False
+
 
     def __str__(self):
         return "Adds an 'OMP TASK' directive to a statement"
